@@ -30,3 +30,18 @@ def assignments(features, d, full_products=()):
             a = emit(dict(zip(group, combo)))
             if a is not None:
                 yield a
+
+
+def minimise(assign, features, evaluate, kind):
+    """greedy reduction of the set of non-default features that still shows a failure of `kind`;
+    evaluate(assignment) -> iterable of failure kinds (or None if the assignment is not meaningful)"""
+    cur = dict(assign)
+    for name in features:
+        if cur[name] == 0:
+            continue
+        trial = dict(cur)
+        trial[name] = 0
+        kinds = evaluate(trial)
+        if kinds is not None and kind in kinds:
+            cur = trial
+    return cur
